@@ -1,7 +1,12 @@
 #!/bin/sh
-# run every claimed check (quick tier) on the current tree, in sequence; print one line per property
+# tools/run_all.sh [quick|thorough] [--write-baseline]: run every claimed check on the current tree, in sequence; one line per property.
+# With --write-baseline the obligations discharged on this (unchanged) tree are recorded in expected_discharged.json.
 cd /verif
+TIER="${1:-quick}"; WB=""
+[ "$2" = "--write-baseline" ] && WB="--write-baseline"
 for id in $(python3 -c "import json;print(' '.join(c['property_id'] for c in json.load(open('MANIFEST.json'))['checks']))"); do
-  ./check $id --tier "${1:-quick}" 2>&1 | grep -E "^(VIOLATION|KNOWN|CHECKER|C[0-9]+ tier)" | cut -c1-200
-  echo "   exit=$? ($id)"
+  ./check $id --tier "$TIER" $WB > /tmp/run_all_$id.log 2>&1; rc=$?
+  grep -E "^(VIOLATION|KNOWN|CHECKER|UNDECIDED|C[0-9]+ tier)" /tmp/run_all_$id.log | cut -c1-200
+  echo "   exit=$rc ($id)"
+  rm -f /tmp/run_all_$id.log
 done
